@@ -9,7 +9,13 @@ import (
 	"github.com/open-policy-agent/opa/rego"
 )
 
-func ProcessProfile(profileText string, debug bool, eventChan *chan e.Event) (*rego.PreparedEvalQuery, error) {
+func ProcessProfile(profileText string, debug bool, eventChan *chan e.Event) (compiled *rego.PreparedEvalQuery, err error) {
+	defer func() {
+		if r := recover(); r != nil {
+			compiled, err = nil, panicAsError(r)
+		}
+	}()
+
 	// Generate Rego code
 	regoUnit, err := GenerateRego(profileText, debug, eventChan)
 
